@@ -159,7 +159,8 @@ Definition compute_prop (d : doc) (par : option (kind * smap)) (st : smap) (p : 
     | Some (VEmph style col pos) =>
         let col' := match col with Some c => Some c | None => get_color st p_Color end in
         (* _get_writing_mode: ISD elements are not linked to their parents yet, so the walk stops at the
-           immediate parent (or at the element itself for a region) *)
+           immediate parent (or at the element itself for a region); the parent's map carries the region's
+           writing mode (see inherit_prop) *)
         let wm := match par with Some (_, pst) => sget pst p_WritingMode | None => sget st p_WritingMode end in
         let style' := if style =? e_TextEmphasisType_Style_auto
                       then (if is_vertical wm then e_TextEmphasisType_Style_filled_sesame else e_TextEmphasisType_Style_filled_circle)
@@ -230,6 +231,10 @@ Definition inherit_prop (k : kind) (pk : kind) (pst : smap) (st : smap) (p : Z) 
         end
     | _ => st
     end
+  else if p =? p_WritingMode then
+    (* StyleProcessors.WritingMode.inherit: the (region's) writing mode is carried down unconditionally, for
+       _get_writing_mode; it is stripped again as not applicable *)
+    match sget pst p with Some v => sset st p v | None => st end
   else if is_inherited p && negb (shas st p) then
     match sget pst p with Some v => sset st p v | None => st end
   else st.
